@@ -211,6 +211,9 @@ fn rust_call(r: &mut RLN, c: &Call) -> Ret {
     }
 }
 
+static CALL_STYLE: std::sync::atomic::AtomicUsize = std::sync::atomic::AtomicUsize::new(0);
+static INPLACE_CALLS: std::sync::atomic::AtomicUsize = std::sync::atomic::AtomicUsize::new(0);
+
 /// Calls through the FFI the way a C caller would: input Buffers point into caller memory, output
 /// Buffer / bool are uninitialised storage written by the callee.
 fn ffi_call(ctx: *mut RLN, c: &Call) -> Ret {
@@ -221,6 +224,23 @@ fn ffi_call(ctx: *mut RLN, c: &Call) -> Ret {
     let mut vb = MaybeUninit::<bool>::new(VERDICT_POISON.fetch_xor(true, std::sync::atomic::Ordering::Relaxed));
     let outb = |ok: bool, ob: &MaybeUninit<Buffer>| Ret::Bytes(ok, if ok { read_out(ob) } else { vec![] });
     let outv = |ok: bool, vb: &MaybeUninit<bool>| Ret::Verdict(ok, if ok { unsafe { vb.assume_init_read() } } else { false });
+    // Calling style: every third call with one input and one output buffer is made "in place" - the caller hands the
+    // SAME Buffer variable as input and as output (chaining one call's output into the next without a second
+    // variable). The input is what the variable held when the call was made.
+    let inplace = CALL_STYLE.fetch_add(1, std::sync::atomic::Ordering::Relaxed) % 3 == 2;
+    let one = |f: &dyn Fn(*const Buffer, *mut Buffer) -> bool, b: &[u8]| -> Ret {
+        if inplace {
+            INPLACE_CALLS.fetch_add(1, std::sync::atomic::Ordering::Relaxed);
+            let mut io = MaybeUninit::<Buffer>::new(buf(b));
+            let p = io.as_mut_ptr();
+            let ok = f(p as *const Buffer, p);
+            Ret::Bytes(ok, if ok { read_out(&io) } else { vec![] })
+        } else {
+            let mut ob = MaybeUninit::<Buffer>::uninit();
+            let ok = f(&buf(b), ob.as_mut_ptr());
+            Ret::Bytes(ok, if ok { read_out(&ob) } else { vec![] })
+        }
+    };
     match c {
         Call::SetLeaf(i, b) => Ret::Bytes(ffi::set_leaf(ctx, *i, &buf(b)), vec![]),
         Call::DeleteLeaf(i) => Ret::Bytes(ffi::delete_leaf(ctx, *i), vec![]),
@@ -249,14 +269,8 @@ fn ffi_call(ctx: *mut RLN, c: &Call) -> Ret {
         }
         Call::Flush => Ret::Bytes(ffi::flush(ctx), vec![]),
         Call::SetTree(d) => Ret::Bytes(ffi::set_tree(ctx, *d), vec![]),
-        Call::Hash(b) => {
-            let ok = ffi::hash(&buf(b), ob.as_mut_ptr());
-            outb(ok, &ob)
-        }
-        Call::Poseidon(b) => {
-            let ok = ffi::poseidon_hash(&buf(b), ob.as_mut_ptr());
-            outb(ok, &ob)
-        }
+        Call::Hash(b) => one(&|i, o| ffi::hash(i, o), b),
+        Call::Poseidon(b) => one(&|i, o| ffi::poseidon_hash(i, o), b),
         Call::KeyGen => {
             let ok = ffi::key_gen(ctx, ob.as_mut_ptr());
             outb(ok, &ob)
@@ -265,26 +279,11 @@ fn ffi_call(ctx: *mut RLN, c: &Call) -> Ret {
             let ok = ffi::extended_key_gen(ctx, ob.as_mut_ptr());
             outb(ok, &ob)
         }
-        Call::SeededKeyGen(b) => {
-            let ok = ffi::seeded_key_gen(ctx, &buf(b), ob.as_mut_ptr());
-            outb(ok, &ob)
-        }
-        Call::SeededExtKeyGen(b) => {
-            let ok = ffi::seeded_extended_key_gen(ctx, &buf(b), ob.as_mut_ptr());
-            outb(ok, &ob)
-        }
-        Call::GenProof(b, _) => {
-            let ok = ffi::generate_rln_proof(ctx, &buf(b), ob.as_mut_ptr());
-            outb(ok, &ob)
-        }
-        Call::GenProofWitness(b) => {
-            let ok = ffi::generate_rln_proof_with_witness(ctx, &buf(b), ob.as_mut_ptr());
-            outb(ok, &ob)
-        }
-        Call::Prove(b) => {
-            let ok = ffi::prove(ctx, &buf(b), ob.as_mut_ptr());
-            outb(ok, &ob)
-        }
+        Call::SeededKeyGen(b) => one(&|i, o| ffi::seeded_key_gen(ctx, i, o), b),
+        Call::SeededExtKeyGen(b) => one(&|i, o| ffi::seeded_extended_key_gen(ctx, i, o), b),
+        Call::GenProof(b, _) => one(&|i, o| ffi::generate_rln_proof(ctx, i, o), b),
+        Call::GenProofWitness(b) => one(&|i, o| ffi::generate_rln_proof_with_witness(ctx, i, o), b),
+        Call::Prove(b) => one(&|i, o| ffi::prove(ctx, i, o), b),
         Call::Verify(b) => {
             let ok = ffi::verify(ctx, &buf(b), vb.as_mut_ptr());
             outv(ok, &vb)
@@ -297,9 +296,13 @@ fn ffi_call(ctx: *mut RLN, c: &Call) -> Ret {
             let ok = ffi::verify_with_roots(ctx, &buf(a), &buf(b), vb.as_mut_ptr());
             outv(ok, &vb)
         }
+        // in place: the output variable is the one that held the first (or, alternating, the second) message
         Call::Recover(a, b) => {
-            let ok = ffi::recover_id_secret(ctx, &buf(a), &buf(b), ob.as_mut_ptr());
-            outb(ok, &ob)
+            if INPLACE_CALLS.load(std::sync::atomic::Ordering::Relaxed) % 2 == 0 {
+                one(&|i, o| ffi::recover_id_secret(ctx, i, &buf(b), o), a)
+            } else {
+                one(&|i, o| ffi::recover_id_secret(ctx, &buf(a), i, o), b)
+            }
         }
     }
 }
@@ -856,5 +859,6 @@ pub fn run(rep: &mut Rep, args: &[String]) {
         }
     }
     rep.note("lockstep_calls", json!(total_calls));
+    rep.countn("ffi_calls_made_in_place(same Buffer variable as input and output)", INPLACE_CALLS.load(std::sync::atomic::Ordering::Relaxed) as u64);
     rep.sample(json!({"example_call": "seq_atomic_operation(leaves, removals) on the FFI instance vs atomic_operation(leaves_set(), leaves, removals) on the Rust instance; flags, then root / leaf count / 28 leaves / metadata of both instances compared"}));
 }
